@@ -347,6 +347,31 @@ def gen_c10(rng: random.Random, sid: str, thorough: bool = False) -> dict:
                             'rand': rng.choice([None, None, 'lo', 'hi'])})
 
 
+def gen_c10_long(rng: random.Random, sid: str, thorough: bool = False) -> dict:
+    """A long history: one responder re-announces its pointer every 15 s for more than half an hour (every refresh cancels a
+    scheduled query and schedules a new one: residue piles up in the scheduler's heap) while a handful of other pointers, learned
+    at scattered instants with scattered TTLs, are left to be refreshed by the browser alone until they run out."""
+    n1, n2 = 6, 2
+    steps: List[dict] = [{'op': 'at', 't': 0}, {'op': 'bstart', 'types': [T1, T2], 'delay': rng.choice([1000, 10000]), 'forced': 'none'}]
+    events: List[Tuple[int, dict]] = []
+    period = rng.choice([15000, 15000, 20000])
+    for k in range(rng.choice([130, 150, 200])):
+        events.append((20000 + k * period, {'op': 'recv', 'items': [{'id': 1, 'ttl': 4500, 'sp': 0}]}))
+    horizon = 0
+    for i in range(2, n1 + n2 + 1):
+        if rng.random() < 0.15:
+            continue
+        ttl = rng.choice([1125, 1200, 2000, 4500, 4500, 9000]) if rng.random() < 0.7 else rng.randint(1125, 9000)
+        learn = rng.randint(21000, 1900000)
+        events.append((learn, {'op': 'recv', 'items': [{'id': i, 'ttl': ttl, 'sp': 0}]}))
+        horizon = max(horizon, learn + ttl * 1000 + 30000)
+    events.sort(key=lambda x: x[0])
+    for (tt, st) in events:
+        steps += [{'op': 'at', 't': tt}, st]
+    steps.append({'op': 'at', 't': max(horizon, events[-1][0]) + 30000})
+    return with_group(rng, {'id': sid, 'n1': n1, 'n2': n2, 'n3': 0, 'seed': rng.randint(0, 10 ** 9), 'steps': steps, 'rand': rng.choice([None, 'lo', 'hi'])})
+
+
 def gen_c10_partial(rng: random.Random, sid: str, thorough: bool = False) -> dict:
     """A browser of two types whose records come up for refresh in the same pass, while the question for one of the types was heard
     from the link (this instance answers for that type) less than a second earlier with a known-answer list that covers the
